@@ -4,6 +4,7 @@ import (
 	"fmt"
 	"go/token"
 	"go/types"
+	"strings"
 
 	"golang.org/x/tools/go/ssa"
 )
@@ -74,7 +75,12 @@ func rulePendingFlushed(names ...string) func(p *Prog, l *Ledger, tier string) {
 				}
 			}
 		}
-		l.Min(rule, n, 1)
+		if n == 0 {
+			// idiom-conditional: without a loop-carried pointer that is replaced by a fresh object there
+			// is no pending element to lose (the runs are then built some other way, which this rule
+			// says nothing about)
+			l.Prove(rule, "", rule+"|idiom-absent", "", "idiom-absent: no loop-carried pointer is replaced by a fresh object in "+strings.Join(names, ", "))
+		}
 	}
 }
 
